@@ -812,6 +812,21 @@ func extSortSlice(stable bool) nativeFn {
 	return func(g *G, fr *frame, a []value) value {
 		sl := a[0].(iface).v.([]value)
 		less := a[1]
+		if !stable {
+			// sort.Slice's contract leaves the order of equal elements open; the
+			// real implementation happens to be stable below 13 elements. A
+			// counterexample that relies on this freedom is contract-level.
+			note := "contract-stub: sort.Slice may reorder equal elements (natively only for n>12)"
+			has := false
+			for _, n := range g.ex.notes {
+				if n == note {
+					has = true
+				}
+			}
+			if !has {
+				g.ex.notes = append(g.ex.notes, note)
+			}
+		}
 		lt := func(i, j int) bool {
 			r := call(g, fr, 0, less, []value{i, j})
 			if b, ok := r.(bool); ok {
